@@ -9,7 +9,9 @@ import Frp.Lemmas.Client
 
   Part H — health counting.   Part W — wrapper phase machine.   Part R — reload diff.
 
-  TWO FINDINGS of the faithful models (both reproduced on the real code by the engines):
+  TWO FINDINGS of the models of the pinned code (both reproduced on the real code by the engines,
+  both repaired in /repo since: H by 75a9f5a — the driver uses `HealthFixed` —, R by eab68f8 —
+  `Reconcile.updateAll` is the repaired reload, `updateAllOld` the former one):
    * H: `failedTimes` is never reset, so the failed callback fires after `maxFailed` failures IN
      TOTAL, not in a row (`health_consecutive_witness`).  `HealthFixed` is the repaired machine
      with the full theorem `withdraw_iff_consecutive`.
@@ -20,7 +22,9 @@ import Frp.Lemmas.Client
      status "fixed".  Both theorem sets stay proved; nothing else changes.
    * R: for a name that occurs twice with different contents the delete loop compares with the
      LAST entry and the add loop starts the FIRST, so reloading the very same configuration stops
-     and re-registers that proxy every time (`reload_dup_witness`).
+     and re-registers that proxy every time (`reload_dup_witness`, about `updateAllOld`).  After the
+     fix (`cfg = proxyCfgsMap[name]` in the add loop) the full statement `reload_idempotent` holds
+     for EVERY configuration list, duplicates included.
 -/
 namespace Frp
 namespace C19
@@ -507,20 +511,20 @@ theorem filter_nodup (ws : List W) (p : W → Bool) (h : NamesNodup ws) : NamesN
 theorem inv_updateAll (m : Mgr) (cfgs : List Cfg) (now : Nat) (h : Inv m) :
     Inv (updateAll m cfgs now).1 := by
   obtain ⟨hnd, hall⟩ := h
+  simp only [updateAll, addLoopNew_eq]
   refine ⟨addLoop_nodup _ _ _ _ (filter_nodup _ _ hnd), ?_⟩
   intro w hw
-  simp only [updateAll] at hw ⊢
   rcases addLoop_mem _ _ _ _ _ hw with h1 | ⟨c, _, he, _⟩
   · have := hall w (List.mem_filter.mp h1).1
-    exact ⟨this.1, by omega⟩
+    exact ⟨this.1, by simp only; omega⟩
   · subst he
-    exact ⟨start_mk_phase _ _ _, by rw [start_mk_id]; omega⟩
+    exact ⟨start_mk_phase _ _ _, by rw [start_mk_id]; simp only; omega⟩
 
 /-- the running names after a reload are exactly the configured names -/
 theorem update_names (m : Mgr) (cfgs : List Cfg) (now : Nat) (n : Nat) :
     hasName (updateAll m cfgs now).1.proxies n = true ↔ ∃ c ∈ cfgs, c.name = n := by
-  simp only [updateAll]
-  rw [addLoop_hasName]
+  simp only [updateAll, addLoopNew_eq]
+  rw [addLoop_hasName, map_sel_any]
   constructor
   · intro h
     rcases Bool.or_eq_true_iff.mp h with h | h
@@ -542,7 +546,7 @@ theorem update_names (m : Mgr) (cfgs : List Cfg) (now : Nat) (n : Nat) :
     stamp, same status, same clocks) -/
 theorem update_kept_same_wrapper (m : Mgr) (cfgs : List Cfg) (now : Nat) (w : W)
     (hw : w ∈ m.proxies) (hk : keeps cfgs w = true) : w ∈ (updateAll m cfgs now).1.proxies := by
-  simp only [updateAll]
+  simp only [updateAll, addLoopNew_eq]
   exact addLoop_sub _ _ _ _ _ (List.mem_filter.mpr ⟨hw, hk⟩)
 
 /-- exact number of CloseProxy per name emitted by a reload: one iff a running wrapper of that
@@ -551,9 +555,9 @@ theorem update_close_count (m : Mgr) (cfgs : List Cfg) (now : Nat) (h : Inv m) (
     (updateAll m cfgs now).2.2.count (n, Msg.closeProxy) =
       if m.proxies.any (fun w => w.cfg.name == n && !keeps cfgs w) then 1 else 0 := by
   obtain ⟨hnd, hall⟩ := h
-  simp only [updateAll]
+  simp only [updateAll, addLoopNew_eq]
   rw [List.count_append]
-  have h0 : (addLoop m.nextId now (m.proxies.filter (keeps cfgs)) cfgs).2.count (n, Msg.closeProxy) = 0 := by
+  have h0 : (addLoop m.nextId now (m.proxies.filter (keeps cfgs)) (cfgs.map (sel cfgs))).2.count (n, Msg.closeProxy) = 0 := by
     rw [List.count_eq_zero]
     intro hm
     have := addLoop_events_new _ _ _ _ _ hm
@@ -570,24 +574,29 @@ theorem stopEvents_count_new (ws : List W) (n : Nat) : (stopEvents ws).count (n,
   simp only [step] at hm'
   split at hm' <;> simp_all
 
-/-- exact number of NewProxy per name emitted by a reload (machine as it is: the FIRST entry of
-    the name is the one started) -/
+/-- exact number of NewProxy per name emitted by a reload: one iff no wrapper of that name is
+    kept and the configured entry of the name (`proxyCfgsMap[name]`, the last one) exists and is
+    not health-gated -/
 theorem update_new_count (m : Mgr) (cfgs : List Cfg) (now : Nat) (n : Nat) :
     (updateAll m cfgs now).2.2.count (n, Msg.newProxy) =
-      if hasName (m.proxies.filter (keeps cfgs)) n then 0 else
-        startCount (cfgs.find? (fun c => c.name == n)) := by
-  simp only [updateAll]
-  rw [List.count_append, stopEvents_count_new, addLoop_count_new, Nat.zero_add]
+      if hasName (m.proxies.filter (keeps cfgs)) n then 0 else startCount (lookupLast cfgs n) := by
+  simp only [updateAll, addLoopNew_eq]
+  rw [List.count_append, stopEvents_count_new, addLoop_count_new, Nat.zero_add, map_sel_find]
 
-/-- every wrapper after a reload is a kept one or a new object created for a configured entry -/
+/-- every wrapper after a reload is a kept one or a new object created for the configured entry
+    of its name -/
 theorem update_new_wrappers (m : Mgr) (cfgs : List Cfg) (now : Nat) (w : W)
     (hw : w ∈ (updateAll m cfgs now).1.proxies) :
-    (w ∈ m.proxies ∧ keeps cfgs w = true) ∨ (w.id = m.nextId ∧ w.cfg ∈ cfgs ∧ w.phase ≠ .closed) := by
-  simp only [updateAll] at hw
+    (w ∈ m.proxies ∧ keeps cfgs w = true) ∨
+    (w.id = m.nextId ∧ lookupLast cfgs w.cfg.name = some w.cfg ∧ w.phase ≠ .closed) := by
+  simp only [updateAll, addLoopNew_eq] at hw
   rcases addLoop_mem _ _ _ _ _ hw with h1 | ⟨c, hc, he, _⟩
   · exact Or.inl (List.mem_filter.mp h1)
   · subst he
-    exact Or.inr ⟨start_mk_id _ _ _, by rw [start_mk_cfg]; exact hc, start_mk_phase _ _ _⟩
+    obtain ⟨c0, hc0, rfl⟩ := List.mem_map.mp hc
+    refine Or.inr ⟨start_mk_id _ _ _, ?_, start_mk_phase _ _ _⟩
+    rw [start_mk_cfg, sel_name]
+    exact sel_spec hc0
 
 /-- the removed / changed wrapper objects are gone from the map (stamps of new ones are fresh) -/
 theorem update_changed_gone (m : Mgr) (cfgs : List Cfg) (now : Nat) (h : Inv m) (w : W)
@@ -598,59 +607,68 @@ theorem update_changed_gone (m : Mgr) (cfgs : List Cfg) (now : Nat) (h : Inv m) 
   · have := (h.2 w hw).2
     omega
 
-/-- with a consistent configuration (no name twice with different contents) every running
-    wrapper carries exactly the configured entry of its name -/
-theorem update_running_cfgs (m : Mgr) (cfgs : List Cfg) (now : Nat) (hc : Consistent cfgs) (w : W)
+/-- "converge to exactly those of the last loaded configuration": after a reload every running
+    wrapper carries exactly the configured entry of its name — for EVERY configuration list -/
+theorem update_running_cfgs (m : Mgr) (cfgs : List Cfg) (now : Nat) (w : W)
     (hw : w ∈ (updateAll m cfgs now).1.proxies) : lookupLast cfgs w.cfg.name = some w.cfg := by
-  rcases update_new_wrappers m cfgs now w hw with ⟨_, hk⟩ | ⟨_, hmem, _⟩
+  rcases update_new_wrappers m cfgs now w hw with ⟨_, hk⟩ | ⟨_, hl, _⟩
   · simpa [keeps] using hk
-  · exact hc _ hmem
+  · exact hl
 
-/-- FULL STATEMENT "reloading the configuration that is already loaded changes nothing" -/
-def ReloadIdempotentFull : Prop :=
-  ∀ (m : Mgr) (cfgs : List Cfg) (now now' : Nat), Inv m →
-    (updateAll (updateAll m cfgs now).1 cfgs now').2.2 = []
+/-- FULL STATEMENT "reloading the configuration that is already loaded changes nothing": no
+    message, no wrapper stopped, the very same wrapper objects — for every manager state and every
+    configuration list, duplicate names included -/
+def ReloadIdempotentFull (upd : Mgr → List Cfg → Nat → Mgr × List W × List (Nat × Msg)) : Prop :=
+  ∀ (m : Mgr) (cfgs : List Cfg) (now now' : Nat),
+    (upd (upd m cfgs now).1 cfgs now').2.2 = [] ∧
+    (upd (upd m cfgs now).1 cfgs now').2.1 = [] ∧
+    (upd (upd m cfgs now).1 cfgs now').1.proxies = (upd m cfgs now).1.proxies
 
-/-- the machine as it is violates it for a name configured twice with different contents:
-    the second, identical reload stops and re-registers the proxy -/
+/-- the reload BEFORE fix eab68f8 violated it for a name configured twice with different
+    contents: the second, identical reload stops and re-registers the proxy -/
 theorem reload_dup_witness :
-    (updateAll (updateAll Reconcile.init [⟨1, 0, false, false⟩, ⟨1, 1, false, false⟩] 0).1
+    (updateAllOld (updateAllOld Reconcile.init [⟨1, 0, false, false⟩, ⟨1, 1, false, false⟩] 0).1
         [⟨1, 0, false, false⟩, ⟨1, 1, false, false⟩] 10).2.2
       = [(1, .closeProxy), (1, .newProxy)] := by decide
 
-theorem not_ReloadIdempotentFull : ¬ ReloadIdempotentFull := by
+theorem not_ReloadIdempotentFull_old : ¬ ReloadIdempotentFull updateAllOld := by
   intro h
-  have := h Reconcile.init [⟨1, 0, false, false⟩, ⟨1, 1, false, false⟩] 0 10 inv_init
+  have := (h Reconcile.init [⟨1, 0, false, false⟩, ⟨1, 1, false, false⟩] 0 10).1
   rw [reload_dup_witness] at this
   cases this
 
-/-- …and what runs is the FIRST entry although the diff compares with the LAST -/
+/-- …and what ran was the FIRST entry although the diff compared with the LAST -/
 theorem reload_dup_runs_first :
-    ((updateAll Reconcile.init [⟨1, 0, false, false⟩, ⟨1, 1, false, false⟩] 0).1.proxies.map (·.cfg.variant))
+    ((updateAllOld Reconcile.init [⟨1, 0, false, false⟩, ⟨1, 1, false, false⟩] 0).1.proxies.map (·.cfg.variant))
       = [0] := by decide
 
-/-- PARTIAL: for consistent configurations the identical reload emits nothing and keeps every
-    wrapper object.  Missing for the full statement: duplicate names with different contents. -/
-theorem reload_idempotent_partial (m : Mgr) (cfgs : List Cfg) (now now' : Nat) (hc : Consistent cfgs) :
-    (updateAll (updateAll m cfgs now).1 cfgs now').2.2 = [] ∧
-    (updateAll (updateAll m cfgs now).1 cfgs now').1.proxies = (updateAll m cfgs now).1.proxies ∧
-    (updateAll (updateAll m cfgs now).1 cfgs now').2.1 = [] := by
+/-- the same witness on the reload as it is now: the LAST entry runs and the identical reload is silent -/
+theorem reload_dup_fixed_witness :
+    ((updateAll Reconcile.init [⟨1, 0, false, false⟩, ⟨1, 1, false, false⟩] 0).1.proxies.map (·.cfg.variant)) = [1] ∧
+    (updateAll (updateAll Reconcile.init [⟨1, 0, false, false⟩, ⟨1, 1, false, false⟩] 0).1
+        [⟨1, 0, false, false⟩, ⟨1, 1, false, false⟩] 10).2.2 = [] := by decide
+
+/-- THE FULL STATEMENT holds for the reload as it is now -/
+theorem reload_idempotent : ReloadIdempotentFull updateAll := by
+  intro m cfgs now now'
   have hall : ∀ w ∈ (updateAll m cfgs now).1.proxies, keeps cfgs w = true := by
     intro w hw
-    simp [keeps, update_running_cfgs m cfgs now hc w hw]
+    simp [keeps, update_running_cfgs m cfgs now w hw]
   have hf : (updateAll m cfgs now).1.proxies.filter (keeps cfgs) = (updateAll m cfgs now).1.proxies :=
     List.filter_eq_self.mpr hall
   have hg : (updateAll m cfgs now).1.proxies.filter (fun w => !keeps cfgs w) = [] := by
     rw [List.filter_eq_nil_iff]
     intro w hw
     simp [hall w hw]
-  have hno : addLoop (updateAll m cfgs now).1.nextId now' (updateAll m cfgs now).1.proxies cfgs
+  have hno : addLoop (updateAll m cfgs now).1.nextId now' (updateAll m cfgs now).1.proxies (cfgs.map (sel cfgs))
       = ((updateAll m cfgs now).1.proxies, []) := by
     apply addLoop_noop
     intro c hcm
-    exact (update_names m cfgs now c.name).mpr ⟨c, hcm, rfl⟩
+    obtain ⟨c0, hc0, rfl⟩ := List.mem_map.mp hcm
+    rw [sel_name]
+    exact (update_names m cfgs now c0.name).mpr ⟨c0, hc0, rfl⟩
   generalize hm1 : (updateAll m cfgs now).1 = m1 at *
-  simp only [updateAll, hf, hg, hno, stopEvents, stopAll]
+  simp only [updateAll, addLoopNew_eq, hf, hg, hno, stopEvents, stopAll]
   simp
 
 /-- the wrapper-level events delivered through the manager keep the invariant (the manager never
@@ -730,14 +748,12 @@ theorem updHoldsOn_of_UpdHolds (old : List W) (cfgs : List Cfg) (evs : List (Nat
   intro n _
   exact h n
 
-/-- the model's reload satisfies the predicate for every reachable manager and every consistent
-    configuration (so the predicate cannot raise a false alarm on conforming behaviour) -/
-theorem model_UpdHolds (m : Mgr) (cfgs : List Cfg) (now : Nat) (h : Inv m) (hc : Consistent cfgs) :
+/-- the model's reload satisfies the predicate for every reachable manager and EVERY
+    configuration list (so the predicate cannot raise a false alarm on conforming behaviour) -/
+theorem model_UpdHolds (m : Mgr) (cfgs : List Cfg) (now : Nat) (h : Inv m) :
     UpdHolds m.proxies cfgs (updateAll m cfgs now).2.2 := by
   intro n
-  refine ⟨update_close_count m cfgs now h n, ?_⟩
-  rw [update_new_count, consistent_first_eq_last hc]
-  rfl
+  exact ⟨update_close_count m cfgs now h n, update_new_count m cfgs now n⟩
 
 def parseEv (s : String) : Option (Nat × Msg) :=
   match s.toList with
